@@ -83,6 +83,13 @@ def acc_cases(rng, tier):
         for i in (0, len(good) // 2, len(good) - 1):
             for r in low_byte_runes(good[i]):
                 add(enc, good[:i] + r + good[i + 1:])
+    for t in pdf_numeric_runs(rng, tier):
+        add("pdf %d" % rng.randrange(0, 4), t)
+    for a in aztec_stuffing(rng, tier):
+        L.append("az " + a)
+    for t in c128_many_switches():
+        add("c128", t)
+        add("c128n", t)
     # sign characters inside / at the start of the 3-digit groups of QR numeric mode
     for sign in "+-":
         for pos in range(0, 7):
@@ -93,3 +100,65 @@ def acc_cases(rng, tier):
                     add("qr %d %d" % (rng.randrange(4), mode), t)
                 add("qr 0 1", base[:pos] + sign + "0" * z)
     return L
+
+
+def aztec_stuffing(rng, tier):
+    """"<pct> <layers> <payload hex>": payloads that grow under bit stuffing (runs of 0xFF / 0x00), at low and
+    normal percentages, against explicit layer requests near their capacity (compact: the 64-data-word limit must
+    be judged on the STUFFED length; every size: data + requested check bits must fit after stuffing) and on the
+    automatic path up to the largest symbol (where the search may run out of candidates)."""
+    quick = tier == "quick"
+    out = []
+    for req in ([-4, -3, -2, -1, 1, 2, 4] if quick else list(range(-4, 0)) + list(range(1, 12))):
+        for pct in ((0, 5, 14, 33) if quick else (0, 1, 2, 5, 8, 10, 14, 15, 23, 33)):
+            for b in (0x00, 0xFF):
+                for n in ((33, 50, 56, 58, 61, 64) if quick else list(range(30, 70, 2)) + [55, 57, 59, 61]):
+                    out.append("%d %d %s" % (pct, req, (bytes([b]) * n).hex()))
+            for n in ((88, 95, 102) if quick else range(84, 106)):
+                out.append("%d %d %s" % (pct, req, ("A !" * 40)[:n].encode().hex()))
+    # exactly 62..66 data words of plain letters at low percentages, automatic and explicit compact-4
+    for pct in ((1, 10, 16) if quick else (0, 1, 5, 10, 14, 16, 17, 20)):
+        for n in (range(99, 106) if quick else range(94, 110)):
+            t = "".join(rng.choice("ABCDEFGHIJKLMNOPQRSTUVWXYZ") for _ in range(n)).encode().hex()
+            out.append("%d 0 %s" % (pct, t))
+            out.append("%d -4 %s" % (pct, t))
+    # automatic path: stuffing-heavy payloads of every magnitude up to what only the largest symbol holds
+    for pct in ((5, 23, 33) if quick else (0, 5, 10, 23, 33, 50)):
+        for n in ((20, 58, 60, 300, 1500, 1800, 2000, 2200) if quick else (10, 20, 40, 58, 60, 85, 150, 300, 600, 1000, 1500, 1700, 1800, 1900, 2000, 2100, 2200, 2400)):
+            for b in (0x00, 0xFF):
+                out.append("%d 0 %s" % (pct, (bytes([b]) * n).hex()))
+    return out
+
+
+def pdf_numeric_runs(rng, tier):
+    """digit runs of every length (numeric compaction groups 44 digits; the last group has 1..44) with large values"""
+    out = []
+    for n in (range(1, 100) if tier == "quick" else range(1, 200)):
+        out.append("9" * n)
+        out.append(rng.choice("89") + digits(rng, n - 1))
+    for n in (13, 19, 44, 63):
+        out.append("A" + "9" * n + "B")
+    return out
+
+
+def dm_misaligned_digits(caps):
+    """one to three letters, then digits up to exactly the capacity of each size (digit pairs are one codeword): the
+    pairing must not be lost at any internal chunk boundary"""
+    out = []
+    for c in caps:
+        for lead in (1, 2, 3):
+            if c - lead >= 1:
+                out.append("A" * lead + "7" * (2 * (c - lead)))
+                out.append("A" * lead + "7" * (2 * (c - lead) + 1))     # one digit more: next size
+    return out
+
+
+def c128_many_switches():
+    """<= 80 runes that need a code-set change at almost every rune (more than 128 symbol characters)"""
+    out = []
+    for n in (33, 40):
+        out.append("\\x01a" * n)
+        out.append("a\\x01" * n)
+    out.append(("\\x01a" * 39 + "\\x02")[:80])
+    out.append("12" + "\\x01a" * 38 + "12")
+    return [t.encode().decode("unicode_escape") for t in out]
